@@ -310,7 +310,24 @@ func drawC11Chain(rt *rapid.T) *Case {
 		}
 		var p *gen.Path
 		var doc *gen.DNode
-		switch gen.Uniform(rt, "where", 4) {
+		switch gen.Uniform(rt, "where", 5) {
+		case 4: // $[?(@<sub>)]: the subscripts alone decide whether a row is kept
+			if gen.Uniform(rt, "zerostep", 4) == 0 {
+				zero := 0
+				for i := range sub.Sub {
+					if sub.Sub[i].Kind == gen.KSlice {
+						sub.Sub[i].Step, sub.Sub[i].TwoPart = &zero, false
+					}
+				}
+			}
+			q := &gen.Query{Kind: gen.QExists, P: &gen.Path{Root: gen.RootAt, Steps: []gen.Step{sub}}}
+			q.Not = gen.Uniform(rt, "neg", 4) == 0
+			p = &gen.Path{Root: gen.RootDollar, Steps: []gen.Step{{Kind: gen.KFilter, Q: q}}}
+			doc = gen.Arr()
+			for i := 0; i < 1+gen.Uniform(rt, "outer", 6); i++ {
+				doc.Kids = append(doc.Kids, mkRows(i+1))
+			}
+			doc.Kids = append(doc.Kids, gen.Arr(), gen.Num(7))
 		case 0: // $<sub>.k
 			p = &gen.Path{Root: gen.RootDollar, Steps: []gen.Step{sub, name}}
 			doc = mkRows(1)
